@@ -775,4 +775,4 @@ mod tests {
 
 #[cfg(kani)]
 #[path = "/verif/units/kani/bit_ops.rs"]
-mod verif_kani;
+pub(crate) mod verif_kani;
